@@ -892,6 +892,7 @@ def run_session(case, judge, prop, tags, mism, viol, max_steps=MAX_STEPS):
                 _configure(fm, cur)
                 ftr = traced_run(fm, time_obj(c.ts), c.exact, op["np_seed"], iterations=c.sim["iterations"], max_steps=max_steps)
                 tags.append("probe:fresh_reference")
+                c.fresh_result = ftr.result        # kept for callers whose property states it (C16); nothing here reads it
                 if ftr.result is not None:
                     same, why = _same_result(ftr.result, c.tr.result)
                     if not same:
